@@ -20,7 +20,7 @@ BINS = ["h_onion"]
 LEVEL = "proof"
 MANIFEST = {
     "category": "proof",
-    "text": "Coq theorems (any packet size, any stream cipher/MAC/self-delimiting payload codec, unbounded hop lists by induction with the filler invariant): build/peel delivery, constant packet size, final marker, build fails iff the route does not fit, HMAC binding and tamper rejection, failure attribution to the failing hop, hold times reported by attribution data; model instantiated with Gallina ChaCha20/HMAC-SHA256 reproduces the real packets byte for byte; implementation-side judge on real onions.",
+    "text": "Coq theorems (any packet size, any stream cipher/MAC/self-delimiting payload codec, unbounded hop lists by induction with the filler invariant): build/peel delivery, constant packet size, final marker, build fails iff the route does not fit, HMAC binding and tamper rejection, failure attribution to the failing hop, hold times of fulfil and failure attribution data (the shift/prune index bookkeeping is proved content-independent and its tables are decided by computation); model instantiated with Gallina ChaCha20/HMAC-SHA256 reproduces the real packets byte for byte; implementation-side judge on real onions.",
     "note": "Trusted: Coq kernel + vm_compute, harness + hooks, hand transliteration tied by byte-exact correspondence. Stated hypotheses: no intermediate HMAC is all-zero, no spurious HMAC match at an earlier hop (each 2^-256), HMAC collision-freeness for tamper rejection; secp256k1/ECDH outside the model (validated on the implementation).",
     "technique": "machine-checked proof in Coq (induction over hop lists) + byte-exact differential correspondence + executable judge on the implementation",
 }
